@@ -23,16 +23,17 @@ structure ChanMono {V} (c c' : Chan V) : Prop where
   sk : c.skipped = true → c'.skipped = true
   nw : ∀ p d, (p, d) ∈ c.ctrl → d ≠ Dep.waiting → ∃ d', (p, d') ∈ c'.ctrl ∧ d' ≠ Dep.waiting
   dt : ∀ p, (p, true) ∈ c.data → (p, true) ∈ c'.data
+  vk : ∀ p, p ∈ akeys c.values → p ∈ akeys c'.values
 
 theorem ChanMono.refl {V} (c : Chan V) : ChanMono c c :=
-  ⟨rfl, fun h => h, fun p d h hd => ⟨d, h, hd⟩, fun p h => h⟩
+  ⟨rfl, fun h => h, fun p d h hd => ⟨d, h, hd⟩, fun p h => h, fun p h => h⟩
 
 theorem ChanMono.trans {V} {a b c : Chan V} (h1 : ChanMono a b) (h2 : ChanMono b c) : ChanMono a c :=
   ⟨h2.shape.trans h1.shape, fun h => h2.sk (h1.sk h),
    fun p d h hd => by
      obtain ⟨d', a1, a2⟩ := h1.nw p d h hd
      exact h2.nw p d' a1 a2,
-   fun p h => h2.dt p (h1.dt p h)⟩
+   fun p h => h2.dt p (h1.dt p h), fun p h => h2.vk p (h1.vk p h)⟩
 
 theorem mem_aset_true_keep (k : Key) (l : List (Key × Bool)) (p : Key) (h : (p, true) ∈ l) :
     (p, true) ∈ aset k true l := by
@@ -52,7 +53,7 @@ theorem reportSkip_mono {V} (c : Chan V) (k : Key) (h : SkOK c) (hk : k ∈ akey
   have hdata : (c.reportSkip true [k]).1.data = if (alookup k c.data).isSome then aset k true c.data else c.data := by
     simp only [Chan.reportSkip, ↓reduceIte, List.foldl_cons, List.foldl_nil]
     split <;> split <;> rfl
-  refine ⟨⟨hs, k2, ?_, ?_⟩, ?_, h3⟩
+  refine ⟨⟨hs, k2, ?_, ?_, fun p h => by rw [reportSkip_values]; exact h⟩, ?_, h3⟩
   · intro p d hm hd
     rw [hctrl]
     split
@@ -113,7 +114,8 @@ theorem reportDeps_mono {V} (c : Chan V) (deps : List Key) :
     exact ⟨ChanMono.refl c, fun p _ _ => Or.inl hs⟩
   · obtain ⟨a, b, cc, _⟩ := depsF_fold deps c
     obtain ⟨_, _, d3⟩ := depsF_fold' deps c
-    refine ⟨⟨a, fun h => by rw [b]; exact h, ?_, fun p h => by rw [cc]; exact h⟩, fun p hp hk => Or.inr (depsF_fold_sets deps c p hp hk)⟩
+    refine ⟨⟨a, fun h => by rw [b]; exact h, ?_, fun p h => by rw [cc]; exact h,
+      fun p h => by rw [(depsF_fold' deps c).1]; exact h⟩, fun p hp hk => Or.inr (depsF_fold_sets deps c p hp hk)⟩
     intro p d hm hd
     rcases d3 p d hm with h | h
     · exact ⟨d, h, hd⟩
@@ -147,6 +149,38 @@ theorem valsF_fold_data {V} (ins : List (Key × V)) (c : Chan V) :
       exact mem_aset_self _ _ _
     · exact i2 p (by simpa [akeys] using hp) (by rw [hkeys]; exact hk)
 
+theorem valsF_fold_vkeys {V} (ins : List (Key × V)) (c : Chan V) :
+    (∀ p, p ∈ akeys c.values → p ∈ akeys (ins.foldl valsF c).values) ∧
+    (∀ p, p ∈ akeys ins → p ∈ akeys c.data → p ∈ akeys (ins.foldl valsF c).values) := by
+  induction ins generalizing c with
+  | nil => exact ⟨fun p h => h, fun p h => by simp [akeys] at h⟩
+  | cons kv t ih =>
+    simp only [List.foldl_cons]
+    obtain ⟨i1, i2⟩ := ih (valsF c kv)
+    have hkeep : ∀ p, p ∈ akeys c.values → p ∈ akeys (valsF c kv).values := by
+      intro p h
+      unfold valsF
+      split
+      · simp only
+        rw [akeys_aset]
+        split
+        · exact h
+        · exact List.mem_append_left _ h
+      · exact h
+    have hkeys : akeys (valsF c kv).data = akeys c.data := by
+      unfold valsF
+      split
+      · rename_i hs; exact akeys_aset_of_mem _ _ _ ((alookup_isSome_iff _ _).mp hs)
+      · rfl
+    refine ⟨fun p h => i1 p (hkeep p h), fun p hp hk => ?_⟩
+    simp only [akeys, List.map_cons, List.mem_cons] at hp
+    rcases hp with rfl | hp
+    · apply i1
+      unfold valsF
+      simp only [(alookup_isSome_iff _ _).mpr hk, ↓reduceIte]
+      exact mem_akeys_of_mem _ kv.2 _ (mem_aset_self _ _ _)
+    · exact i2 p (by simpa [akeys] using hp) (by rw [hkeys]; exact hk)
+
 theorem reportValues_mono {V} (c : Chan V) (ins : List (Key × V)) :
     ChanMono c (c.reportValues true ins) ∧
     (∀ p, p ∈ akeys ins → p ∈ akeys c.data → c.skipped = true ∨ (p, true) ∈ (c.reportValues true ins).data) := by
@@ -156,8 +190,8 @@ theorem reportValues_mono {V} (c : Chan V) (ins : List (Key × V)) :
     exact ⟨ChanMono.refl c, fun p _ _ => Or.inl hs⟩
   · obtain ⟨a, b, cc, _⟩ := valsF_fold ins c
     obtain ⟨d1, d2⟩ := valsF_fold_data ins c
-    exact ⟨⟨a, fun h => by rw [b]; exact h, fun p d hm hd => ⟨d, by rw [cc]; exact hm, hd⟩, d1⟩,
-      fun p hp hk => Or.inr (d2 p hp hk)⟩
+    exact ⟨⟨a, fun h => by rw [b]; exact h, fun p d hm hd => ⟨d, by rw [cc]; exact hm, hd⟩, d1,
+      (valsF_fold_vkeys ins c).1⟩, fun p hp hk => Or.inr (d2 p hp hk)⟩
 
 /-! ### the same for the channel manager -/
 
